@@ -155,9 +155,13 @@ class Cron(addons.AddonMainTask, block.SBlock):
                     + SEC_PER_MIN*(wakeup.minute - nowt.minute)
                     + (wakeup.second - nowt.second)
                     + (wakeup.microsecond - nowt.microsecond)/ 1_000_000.0)
-                if nowt.hour == 23 and wakeup.hour == 0:
-                    # wrap around midnight (relying on hourly wakeups in SET24)
+                # wrap around midnight in both directions (relying on hourly wakeups in SET24):
+                # 23:59:59 -> 00:00:00 is one second early, not almost a day late, and
+                # 00:00:00.001 is slightly after 23:59:59.999, not almost a day before
+                if sleeptime < -SEC_PER_DAY / 2:
                     sleeptime += SEC_PER_DAY
+                elif sleeptime > SEC_PER_DAY / 2:
+                    sleeptime -= SEC_PER_DAY
                 # sleeptime: negative = after the alarm time; positive = before the alarm time
                 if step == 0:
                     self.log_debug("sleep until wakeup: %.3f sec", sleeptime)
